@@ -256,6 +256,12 @@ func (db *DB) Put(key, value string) error {
 }
 
 func (db *DB) PutBytes(keyBytes, valBytes []byte) error {
+	// this has to be rejected before anything is logged: the WAL would otherwise keep a record of a call that
+	// returned an error, which a later recovery applies or fails on
+	if len(keyBytes) == 0 || len(valBytes) == 0 {
+		return ErrEmptyKeyValue
+	}
+
 	// proto marshal takes 60%(!) of this method execution time
 	walBytes, err := proto.Marshal(&dbproto.WalMutation{
 		Mutation: &dbproto.WalMutation_Addition{
